@@ -8,8 +8,9 @@
    obj_ok h o = o's block is live in heap h and at least o's size long; HeapInv = the C14 invariant;
    world/wstep/wrun = an interleaving semantics of threads running `with v.get_lock(): v.value += 1`. *)
 From Coq Require Import ZArith List Bool.
-From BV Require Import Lib.PyVal Model.Heap Model.SharedMem Gen.G_sharedmem.
-From BV Require Import Proofs.HeapGeo Proofs.HeapInv Proofs.SharedMemProofs Proofs.SharedMemLockProofs Proofs.SharedMemGen.
+From BV Require Import Lib.PyVal Model.Heap Model.SharedMem Model.SharedHop Gen.G_sharedmem.
+From BV Require Import Proofs.HeapGeo Proofs.HeapInv Proofs.SharedMemProofs Proofs.SharedMemLockProofs Proofs.SharedMemGen
+  Proofs.SharedHopProofs.
 Import ListNotations.
 Open Scope Z_scope.
 
@@ -109,6 +110,73 @@ Theorem C15_store_visible : forall m o bs m', Z.of_nat (length bs) = o_size o ->
 Proof. intros m o bs m' Hl Hw. rewrite rebuild_same. split; eapply write_visible; eassumption. Qed.
 Print Assumptions C15_store_visible.
 
+(* ---- handed on from process to process (Model/SharedHop.v) ----
+   A process has its own ForkingPickler registry (empty in a fresh, spawn-style interpreter); sending a
+   handle = pickling in its holder (reduce_ctype if a reducer is registered for its type there, else ctypes'
+   by-value pickling: a private copy, or an exception for an array) and rebuild_ctype in the receiver.
+   hrun = any history of spawning processes, allocating in any process, sending any handle from its holder
+   to any process, storing through any handle; roots ops = for every handle, the allocation it descends
+   from through any number of hand-overs. *)
+Theorem C15_code_hand_over :
+  G_sharedmem.new_value_prog = SharedHop.new_value_prog /\
+  G_sharedmem.rebuild_prog = SharedHop.rebuild_prog.
+Proof. exact gen_hop_progs. Qed.
+Print Assumptions C15_code_hand_over.
+
+(* no handle is ever a private copy *)
+Theorem C15_hand_over_never_copies : forall pg hsize ops s h,
+  hrun pg hsize SharedHop.new_value_prog SharedHop.rebuild_prog (hsys_init hsize) ops = OK s ->
+  In h (hs_handles s) -> exists owner ob, h_store h = HShared owner ob.
+Proof. exact hops_never_copy. Qed.
+Print Assumptions C15_hand_over_never_copies.
+
+(* every handle can be handed on by whatever process holds it -- also one that only received it --
+   and the receiver's handle has the same store *)
+Theorem C15_can_be_handed_on : forall pg hsize ops s k q h,
+  hrun pg hsize SharedHop.new_value_prog SharedHop.rebuild_prog (hsys_init hsize) ops = OK s ->
+  nth_error (hs_handles s) k = Some h -> (q < length (hs_procs s))%nat ->
+  exists s', hstep pg hsize SharedHop.new_value_prog SharedHop.rebuild_prog s (HSend k q) = OK s' /\
+             hs_handles s' = hs_handles s ++ [mk_handle q (h_type h) (h_store h)].
+Proof. exact hops_can_hand_on. Qed.
+Print Assumptions C15_can_be_handed_on.
+
+(* handles obtained from one allocation by any number of hand-overs address the same cells *)
+Theorem C15_any_number_of_hops_same_cells : forall pg hsize ops s j k hj hk,
+  hrun pg hsize SharedHop.new_value_prog SharedHop.rebuild_prog (hsys_init hsize) ops = OK s ->
+  nth_error (hs_handles s) j = Some hj -> nth_error (hs_handles s) k = Some hk ->
+  nth j (roots ops) O = nth k (roots ops) O ->
+  h_store hj = h_store hk /\ hread s hj = hread s hk.
+Proof. exact hops_same_cells. Qed.
+Print Assumptions C15_any_number_of_hops_same_cells.
+
+(* a store through any of them is read through every one of them *)
+Theorem C15_store_visible_through_every_handle : forall pg hsize ops s s' j k hj hk owner ob bs,
+  hrun pg hsize SharedHop.new_value_prog SharedHop.rebuild_prog (hsys_init hsize) ops = OK s ->
+  nth_error (hs_handles s) j = Some hj -> nth_error (hs_handles s) k = Some hk ->
+  nth j (roots ops) O = nth k (roots ops) O ->
+  h_store hk = HShared owner ob -> Z.of_nat (length bs) = o_size ob ->
+  hstep pg hsize SharedHop.new_value_prog SharedHop.rebuild_prog s (HWrite k 0 bs) = OK s' ->
+  nth_error (hs_handles s') j = Some hj /\ hread s' hj = bs /\ hread s' hk = bs.
+Proof. exact hops_store_visible. Qed.
+Print Assumptions C15_store_visible_through_every_handle.
+
+(* why rebuild_ctype must register: with the reducer registered only where a type is allocated, the
+   second hand-over of a simple value yields a private copy (the store through it is seen by nobody),
+   and the second hand-over of an array raises *)
+Theorem C15_registration_only_at_allocation_refuted :
+  match hrun 4096 4096 new_value_prog_alloc_only rebuild_prog_no_register (hsys_init 4096)
+             [HNew 0 0 (5, None) 4 [7; 0; 0; 0]; HSpawn; HSpawn; HSend 0 1; HSend 1 2; HWrite 2 0 [9; 9; 9; 9]] with
+  | OK s => map (hread s) (hs_handles s) = [[7; 0; 0; 0]; [7; 0; 0; 0]; [9; 9; 9; 9]]
+  | Err _ => False
+  end /\
+  hrun 4096 4096 new_value_prog_alloc_only rebuild_prog_no_register (hsys_init 4096)
+       [HNew 0 2 (5, Some 2) 8 [1; 0; 0; 0; 2; 0; 0; 0]; HSpawn; HSpawn; HSend 0 1; HSend 1 2] = Err TypeError.
+Proof.
+  split; [exact second_hop_copies_without_registration_in_rebuild
+         |exact second_hop_of_array_raises_without_registration_in_rebuild].
+Qed.
+Print Assumptions C15_registration_only_at_allocation_refuted.
+
 (* ---- atomic ---- *)
 (* n threads, each k times `with v.get_lock(): v.value += 1`, any schedule: at every moment the
    value is v0 + the number of completed stores, and when all are finished it is v0 + n*k *)
@@ -168,3 +236,15 @@ Example C15_witness_schedule :
                 (concat (repeat [0; 1; 1; 0; 0; 0; 1; 0; 0; 0; 0; 1; 1; 1; 1; 1; 1; 1]%nat 6)) in
   all_done w = true /\ w_val w = 16.
 Proof. vm_compute. split; reflexivity. Qed.
+
+(* non-vacuity of the hand-over theorems: parent -> child -> grandchild -> great-grandchild and back *)
+Example C15_witness_three_hops :
+  match hrun 4096 4096 SharedHop.new_value_prog SharedHop.rebuild_prog (hsys_init 4096)
+             [HNew 0 0 (5, None) 4 [7; 0; 0; 0]; HSpawn; HSpawn; HSpawn; HSend 0 1; HSend 1 2; HSend 2 3;
+              HWrite 3 0 [9; 9; 9; 9]; HSend 3 0] with
+  | OK s => map (hread s) (hs_handles s) = repeat [9; 9; 9; 9] 5 /\ roots
+             [HNew 0 0 (5, None) 4 [7; 0; 0; 0]; HSpawn; HSpawn; HSpawn; HSend 0 1; HSend 1 2; HSend 2 3;
+              HWrite 3 0 [9; 9; 9; 9]; HSend 3 0] = [0; 0; 0; 0; 0]%nat
+  | Err _ => False
+  end.
+Proof. exact three_hops_share. Qed.
